@@ -5,7 +5,7 @@
 // scheduling point) at which any other user of the pool may run.  The classes drive the REAL
 // writeSealedFraction (frac.VerifC08WriteSealed) in a store child with GOMAXPROCS(1) - one P, so that
 // sync.Pool hands the buffer released last to the next Get - against an io.WriteSeeker over a real
-// file whose Seek runs "another goroutine": it acquires buffers of the size classes the sealer's
+// file whose Seek (and whose Write, on entry) runs "another goroutine": it acquires buffers of the size classes the sealer's
 // compression buffer of that block belongs to (same request, and half of it = the class below, whose
 // Acquire falls through to the class above), fills them with a poison pattern and releases them (or
 // holds them across blocks).  Afterwards every block of the written index is read back through the
@@ -101,11 +101,18 @@ func (w *memWS) Seek(off int64, whence int) (int64, error) {
 
 // fileWS: io.WriteSeeker over a real file; hook runs inside every Seek (before it is carried out)
 type fileWS struct {
-	f    *os.File
-	hook func(whence int)
+	f     *os.File
+	hook  func(whence int)
+	whook func()
 }
 
-func (w *fileWS) Write(p []byte) (int, error) { return w.f.Write(p) }
+// the write hook runs when Write is entered, before the bytes of p are looked at
+func (w *fileWS) Write(p []byte) (int, error) {
+	if w.whook != nil {
+		w.whook()
+	}
+	return w.f.Write(p)
+}
 func (w *fileWS) Seek(off int64, whence int) (int64, error) {
 	if w.hook != nil {
 		w.hook(whence)
@@ -351,9 +358,10 @@ func poolRun(c *storectl.Child, pr poolReq) (out poolResp) {
 		return
 	}
 	k := 0
+	inBlock := false
 	ws := &fileWS{f: f}
 	ws.hook = func(whence int) {
-		if whence == io.SeekCurrent && k < len(ref) {
+		if whence == io.SeekCurrent && k < len(ref) && !inBlock {
 			// sealer steps of block k up to and including this Seek
 			if k > 0 {
 				ev("ESeal 0") // Acquire
@@ -361,14 +369,23 @@ func poolRun(c *storectl.Child, pr poolReq) (out poolResp) {
 			}
 			ev("ESeal 0") // Seek
 			user(k)
+			inBlock = true
+			return
+		}
+		user(len(ref)) // WriteBlocksRegistry: Seek(0, SeekEnd), Seek(0, SeekStart)
+	}
+	ws.whook = func() {
+		if inBlock {
+			user(k)       // the other goroutine runs once more when Write is entered
 			ev("ESeal 0") // Write
 			if k > 0 {
 				ev("ESeal 0") // deferred Release
 			}
 			k++
+			inBlock = false
 			return
 		}
-		user(len(ref)) // WriteBlocksRegistry: Seek(0, SeekEnd), Seek(0, SeekStart)
+		user(len(ref)) // the Writes of the registry and of the 16 header bytes
 	}
 	if err := frac.VerifC08WriteSealed(a, ws, params, poolSealingTime); err != nil {
 		out.Err = "writeSealedFraction under pool pressure: " + err.Error()
@@ -496,7 +513,7 @@ func (d *driver) poolPressure(r *rng.R, ci int, c *corpus) {
 		fin := copyMap(in)
 		fin["pool_user_mode"] = m
 		fin["pool_user_seed"] = pr.Seed
-		fin["how"] = "store child with GOMAXPROCS(1); writeSealedFraction against an io.WriteSeeker whose Seek (the call WriteBlock makes between compressing a block and writing it) acquires bytespool buffers of the block's size classes, fills them with a poison pattern and releases them; every block read back through disk.IndexReader"
+		fin["how"] = "store child with GOMAXPROCS(1); writeSealedFraction against an io.WriteSeeker whose Seek (the call WriteBlock makes between compressing a block and writing it) and whose Write (on entry, before the bytes are taken) acquire bytespool buffers of the block's size classes, fill them with a poison pattern and release them; every block read back through disk.IndexReader"
 		if e != nil {
 			d.w.Violate("pool-pressure-died", fmt.Sprintf("the store child died while writing the index under pool pressure (mode %s): %s", m, fatalLine(e.Error())), fin)
 			return
